@@ -1,6 +1,9 @@
-(* Traverse.v — model of src/torchjd/autojac/_utils.py:
-     _get_descendant_accumulate_grads(roots, excluded_nodes)   breadth-first walk over
-         grad_fn.next_functions with the queue / excluded-set discipline of the code
+(* Traverse.v — model of src/torchjd/autojac/_utils.py (after the fix "exclude gradient edges, not
+   grad_fn nodes"):
+     _get_descendant_accumulate_grads(roots, excluded_edges)   breadth-first walk over
+         grad_fn.next_functions; tensors are identified by their GRADIENT EDGE (node, output number):
+         the outputs of a multi-output function share their node, and excluding one of them must
+         not exclude its siblings
      _get_leaf_tensors(tensors, excluded)                      the two grad_fn-is-None rejections
    and of the defaults of backward / mtl_backward built on them.
    The graph is any finite directed graph over node ids (not only DAGs). *)
@@ -8,25 +11,36 @@ From Coq Require Import List Bool Arith.
 From TJ Require Import Num Chunk Autojac.
 Import ListNotations.
 
+Definition edge := (nid * nat)%type.
+Definition emem (e : edge) (l : list edge) : bool :=
+  existsb (fun x => (fst x =? fst e) && (snd x =? snd e)) l.
+
+(* the edge-level view of the autograd graph: next_functions with the output number of the child
+   each edge points to, and the output number of every tensor *)
+Record egraph := mkEgraph {
+  e_next : nid -> list (option edge);
+  e_onr : tid -> nat }.
+
 Section Traverse.
-Variable next : nid -> list (option nid).        (* next_functions *)
+Variable next : nid -> list (option edge).       (* next_functions *)
 Variable acc : nid -> option tid.                (* AccumulateGrad.variable *)
 
-(* for child, _ in node.next_functions:
-     if child is not None and child not in excluded_nodes:
-        nodes_to_traverse.append(child); excluded_nodes.add(child) *)
-Fixpoint enqueue (children : list (option nid)) (queue excl : list nid) : list nid * list nid :=
+(* for child, output_nr in node.next_functions:
+     if child is None or (child, output_nr) in excluded_edges or child in visited: continue
+     nodes_to_traverse.append(child); visited.add(child) *)
+Fixpoint enqueue (children : list (option edge)) (excl : list edge) (queue visited : list nid)
+  : list nid * list nid :=
   match children with
-  | [] => (queue, excl)
-  | None :: cs => enqueue cs queue excl
-  | Some c :: cs =>
-      if mem c excl then enqueue cs queue excl
-      else enqueue cs (queue ++ [c]) (c :: excl)
+  | [] => (queue, visited)
+  | None :: cs => enqueue cs excl queue visited
+  | Some (c, k) :: cs =>
+      if emem (c, k) excl || mem c visited then enqueue cs excl queue visited
+      else enqueue cs excl (queue ++ [c]) (c :: visited)
   end.
 
 (* while nodes_to_traverse: node = popleft(); collect if AccumulateGrad; enqueue children.
-   None = out of fuel (never happens when fuel > |nodes| + |roots|, see TraverseProofs) *)
-Fixpoint bfs (fuel : nat) (queue excl result : list nid) : option (list nid) :=
+   None = out of fuel (never happens when fuel > |nodes|, see TraverseProofs) *)
+Fixpoint bfs (fuel : nat) (excl : list edge) (queue visited result : list nid) : option (list nid) :=
   match fuel with
   | O => None
   | S f =>
@@ -37,43 +51,47 @@ Fixpoint bfs (fuel : nat) (queue excl result : list nid) : option (list nid) :=
                          | Some _ => if mem n result then result else n :: result
                          | None => result
                          end in
-          let qe := enqueue (next n) q excl in
-          bfs f (fst qe) (snd qe) result'
+          let qv := enqueue (next n) excl q visited in
+          bfs f excl (fst qv) (snd qv) result'
       end
   end.
 
-(* roots - excluded_nodes (as a duplicate-free list; the deque is built from a Python set) *)
-Definition start_queue (roots excl : list nid) : list nid :=
-  filter (fun r => negb (mem r excl)) (dedup roots).
+(* visited = {node for node, output_nr in roots if (node, output_nr) not in excluded_edges} *)
+Definition start_queue (roots excl : list edge) : list nid :=
+  dedup (map fst (filter (fun r => negb (emem r excl)) roots)).
 
-Definition descendant_accumulate_grads (fuel : nat) (roots excl : list nid) : option (list nid) :=
-  bfs fuel (start_queue roots excl) (dedup excl) [].
+Definition descendant_accumulate_grads (fuel : nat) (roots excl : list edge) : option (list nid) :=
+  let q := start_queue roots excl in bfs fuel excl q q [].
 
 End Traverse.
 
 Section Defaults.
-Context {T : Type} (P : prog T).
+Context {T : Type} (P : prog T) (E : egraph).
 
 Definition all_some {A} (l : list (option A)) : bool :=
   forallb (fun o => match o with Some _ => true | None => false end) l.
 Definition somes {A} (l : list (option A)) : list A :=
   flat_map (fun o => match o with Some c => [c] | None => [] end) l.
 
+(* the gradient edge (grad_fn, output_nr) of a tensor that has a grad_fn *)
+Definition tensor_edges (ts : list tid) : list edge :=
+  flat_map (fun t => match p_gfn P t with Some n => [(n, e_onr E t)] | None => [] end) ts.
+
 (* _get_leaf_tensors: ValueError when a tensor (or an excluded tensor) has no grad_fn *)
 Definition get_leaf_tensors (tensors excluded : list tid) : res (list tid) :=
   if negb (all_some (map (p_gfn P) tensors)) then Err ValueError else
   if negb (all_some (map (p_gfn P) excluded)) then Err ValueError else
-  match descendant_accumulate_grads (p_next P) (p_acc P)
+  match descendant_accumulate_grads (e_next E) (p_acc P)
           (S (p_nnodes P + length tensors))
-          (somes (map (p_gfn P) tensors)) (somes (map (p_gfn P) excluded)) with
-  | None => Err RuntimeError          (* out of fuel: unreachable, see C12_fuel_suffices *)
+          (tensor_edges tensors) (tensor_edges excluded) with
+  | None => Err RuntimeError          (* out of fuel: unreachable, see C12_leaf_set_total *)
   | Some accs => Ok (dedup (somes (map (p_acc P) accs)))
   end.
 
 End Defaults.
 
 Section DefaultEntry.
-Context {T : Type} (N : Num T) (P : prog T) (A : list (list T) -> res (list T)).
+Context {T : Type} (N : Num T) (P : prog T) (E : egraph) (A : list (list T) -> res (list T)).
 
 (* backward(tensors, A) without inputs: inputs = _get_leaf_tensors(tensors, excluded=set());
    [sigma] is the iteration order of that Python set *)
@@ -83,7 +101,7 @@ Definition backward_default (sigma : list tid -> list tid) (tensors : list tid)
   match tensors with
   | [] => (Err ValueError, s)
   | _ =>
-    match get_leaf_tensors P tensors [] with
+    match get_leaf_tensors P E tensors [] with
     | Err e => (Err e, s)
     | Ok leaves => backward_model N P A tensors (sigma leaves) k retain s
     end
@@ -98,7 +116,7 @@ Definition mtl_backward_default (sigma : list tid -> list tid)
   if negb (valid_chunk k) then (Err ValueError, s) else
   match (match shared with
          | Some l => Ok l
-         | None => rbind (get_leaf_tensors P features []) (fun l => Ok (sigma l))
+         | None => rbind (get_leaf_tensors P E features []) (fun l => Ok (sigma l))
          end) with
   | Err e => (Err e, s)
   | Ok sh =>
@@ -106,7 +124,7 @@ Definition mtl_backward_default (sigma : list tid -> list tid)
            | Some l => Ok l
            | None =>
                fold_right (fun loss acc =>
-                             rbind (get_leaf_tensors P [loss] features) (fun l =>
+                             rbind (get_leaf_tensors P E [loss] features) (fun l =>
                              rbind acc (fun ls => Ok (sigma l :: ls))))
                           (Ok []) losses
            end) with
